@@ -3,9 +3,11 @@
      R <tspec> <hex>                 static_map_read_bencode_c on a fresh map
      W <tspec> <k> (<idx> <sval>)*k  fill a fresh map, static_map_write_bencode_c, then read the
                                      output back into a fresh map
+     RI <tspec> <k> (<idx> <sval>)*k <hex>   fill a map with (stale) values, then
+                                     static_map_read_bencode_c INTO it (destination independence)
    tspec ::= H | P | M | D          the real tables (ExtHandshake / ExtPEX / ExtMetadata / Dht)
            | t=<idx>.<hexkey>,...   an inline table ("t=" alone: the empty table)
-   sval  ::= V <tree> | B <hex> | S <hex> | L <hex> | M <hex>
+   sval  ::= V <tree> | U <tree> (tree with flag_unordered set) | B <hex> | S <hex> | L <hex> | M <hex>
    tree  ::= I <dec> | S <hex|-> | L <n> tree*n | M <n> (<hex|-> tree)*n
    Output: entries as  " | <i>=<-|V o/u tree|B hex|S hex|L hex|M hex>"                          *)
 let rec parse_tree toks = match toks with
@@ -64,11 +66,14 @@ let show_read total r = match r with
       Buffer.contents b
   | Reject -> "REJECT" | Fault -> "FAULT" | OutOfFuel -> "OUTOFFUEL"
 
+let rest_toks = ref []
 let rec parse_svals k toks acc =
-  if k = 0 then List.rev acc else
+  if k = 0 then (rest_toks := toks; List.rev acc) else
   match toks with
   | i :: "V" :: r -> let (v, r') = parse_tree r in
       parse_svals (k - 1) r' ((int_of_string i, SObj (normalize v, false)) :: acc)
+  | i :: "U" :: r -> let (v, r') = parse_tree r in
+      parse_svals (k - 1) r' ((int_of_string i, SObj (normalize v, true)) :: acc)
   | i :: "B" :: h :: r -> parse_svals (k - 1) r ((int_of_string i, SRaw (RawAny, bytes_of_hex h)) :: acc)
   | i :: "S" :: h :: r -> parse_svals (k - 1) r ((int_of_string i, SRaw (RawS, bytes_of_hex h)) :: acc)
   | i :: "L" :: h :: r -> parse_svals (k - 1) r ((int_of_string i, SRaw (RawL, bytes_of_hex h)) :: acc)
@@ -90,4 +95,11 @@ let () = each_line (fun line ->
        | WOk (_, out) -> "enc:" ^ hex_of_bytes out ^ " | " ^ show_read (List.length out) (sm_read tbl out)
        | WInternal -> "ERR:internal"
        | WFault -> "FAULT")
+  | "RI" :: t :: k :: toks ->
+      let tbl = parse_table t in
+      let svs = parse_svals (int_of_string k) toks [] in
+      let e = List.mapi (fun i _ -> (try Some (List.assoc i (List.rev svs)) with Not_found -> None)) tbl in
+      (match !rest_toks with
+       | [h] -> let l = bytes_of_hex h in show_read (List.length l) (sm_read_into tbl e l)
+       | _ -> "BADCASE")
   | _ -> "BADCASE")
